@@ -24,6 +24,8 @@ Lemma qwords_big s : 9 <= s <= 16 -> qwords s = 2.
 Proof. unfold qwords; intros; lia. Qed.
 Lemma qwords_pos s : 1 <= s -> 1 <= qwords s.
 Proof. unfold qwords; intros; lia. Qed.
+Lemma qwords_nonneg s : 0 <= s -> 0 <= qwords s.
+Proof. unfold qwords; intros; lia. Qed.
 Lemma align_up_8 x : x mod 8 = 0 -> align_up x 8 = x.
 Proof. unfold align_up; intros; lia. Qed.
 Lemma align_up_16 x : align_up x 16 = (x + 15) / 16 * 16.
@@ -69,7 +71,7 @@ Proof.
     destruct k as [|[|[|[|[|k]]]]]; simpl in *; try discriminate;
       repeat destr_if; unfold st_ok, max_gpr, max_sse in *; simpl in *;
         rewrite ?align_up_8 by assumption;
-        try (assert (1 <= qwords s) by (apply qwords_pos; lia)); lia.
+        first [assert (1 <= qwords s) by (apply qwords_pos; lia)|assert (0 <= qwords s) by (apply qwords_nonneg; lia)|idtac]; lia.
 Qed.
 
 (* ---------------------------------------------------------------- (a) _MIR_get_ff_call *)
